@@ -14,6 +14,7 @@ package chancloser
 //@
 //@ func feeInAcceptableRange
 //@   props C17
+//@   bounds-safe
 //@   requires 0 <= localFee && localFee <= 2100000000000000 && 0 <= remoteFee && remoteFee <= 2100000000000000
 //@   ensures  result == accRange(localFee, remoteFee)
 //@   nowrap
@@ -22,6 +23,7 @@ package chancloser
 //@
 //@ func ratchetFee
 //@   props C17
+//@   bounds-safe
 //@   requires 0 <= fee && fee <= 2100000000000000
 //@   ensures  result == ratchet(fee, up)
 //@   ensures  up ==> result >= fee
@@ -32,6 +34,7 @@ package chancloser
 //@
 //@ func calcCompromiseFee
 //@   props C17
+//@   bounds-safe
 //@   requires 0 <= ourIdealFee && ourIdealFee <= 2100000000000000
 //@   requires 0 <= lastSentFee && lastSentFee <= 2100000000000000
 //@   requires 0 <= remoteFee && remoteFee <= 2100000000000000
@@ -45,6 +48,7 @@ package chancloser
 //@
 //@ func (c *ChanCloser) proposeCloseSigned
 //@   props C17
+//@   bounds-safe
 //@   requires c != nil
 //@   loop * havoc
 //@   site call CreateCloseProposal: assert arg(1) == fee && arg(2) == c.localDeliveryScript && arg(3) == c.remoteDeliveryScript
@@ -55,6 +59,7 @@ package chancloser
 //@
 //@ func (c *ChanCloser) ReceiveClosingSigned
 //@   props C17
+//@   bounds-safe
 //@   requires c != nil
 //@   loop * havoc
 //@   site call IsInitiator nth 1: assert remoteProposedFee == entry(msg).FeeSatoshis
@@ -74,6 +79,7 @@ package chancloser
 //@ // ---- same sequence, same scripts and fee), so the transaction it finalises is the one both signed
 //@ func (l *LocalCloseStart) ProcessEvent
 //@   props C17
+//@   bounds-safe
 //@   loop * havoc
 //@   site call WithCustomSequence: assert arg(0) == 4294967293
 //@   site call WithCustomPayer: assert arg(0) == lntypes.Local
@@ -82,6 +88,7 @@ package chancloser
 //@
 //@ func (l *LocalOfferSent) ProcessEvent
 //@   props C17
+//@   bounds-safe
 //@   loop * havoc
 //@   site call WithCustomSequence: assert arg(0) == 4294967293
 //@   site call WithCustomPayer: assert arg(0) == lntypes.Local
@@ -91,6 +98,7 @@ package chancloser
 //@
 //@ func (l *RemoteCloseStart) ProcessEvent
 //@   props C17
+//@   bounds-safe
 //@   loop * havoc
 //@   site call WithCustomSequence: assert arg(0) == 4294967293
 //@   site call WithCustomPayer: assert arg(0) == lntypes.Remote
@@ -105,6 +113,7 @@ package chancloser
 //@
 //@ func createLocalCloseeSignature
 //@   props C17
+//@   bounds-safe
 //@   loop * havoc
 //@   site call CreateCloseProposal: assert arg(closeOpt) == chanOpts && arg(proposedFee) == fee &&
 //@        arg(localDeliveryScript) == localScript && arg(remoteDeliveryScript) == remoteScript
